@@ -458,3 +458,41 @@ def zip_prefix(ck, rel, predicates, rule='ZIP-prefix'):
                                                                         ('triaged: ' + reason if reason else 'nothing establishes that they are equally long -- a strict prefix compares equal')),
                   key='{}|{}|{}'.format(rule, qual, text[:60]))
     return sites
+
+
+# ----------------------------------------------------------------------------------------------------------------------
+# EDGE-orientation: an undirected edge has no first and second end
+def edge_orientation(ck, rels, rule='EDGE-orientation'):
+    """In a loop over the edges of an (undirected) graph, a test `a in S1 and b in S2` on the two ends with S1 != S2 must be
+    accompanied by the mirrored test -- networkx reports an undirected edge once, in an arbitrary orientation."""
+    n = 0
+    for rel in rels:
+        module = ck.index.mod(rel)
+        for qual, fn in module.functions.items():
+            for loop in [l for l in walk_local(fn) if isinstance(l, (ast.For, ast.comprehension))]:
+                it = loop.iter
+                txt = u(it)
+                if not (txt.endswith('.edges') or '.edges(' in txt or txt.endswith('.edges()')):
+                    continue
+                tgt = loop.target
+                if not (isinstance(tgt, ast.Tuple) and len(tgt.elts) >= 2 and all(isinstance(e, ast.Name) for e in tgt.elts[:2])):
+                    continue
+                a, b = tgt.elts[0].id, tgt.elts[1].id
+                scope = loop.body if isinstance(loop, ast.For) else loop.ifs
+                for test in [t for s_ in scope for t in ast.walk(s_) if isinstance(t, ast.BoolOp) and isinstance(t.op, ast.And)]:
+                    mem = {}
+                    for v in test.values:
+                        if isinstance(v, ast.Compare) and len(v.ops) == 1 and isinstance(v.ops[0], ast.In) and isinstance(v.left, ast.Name) and v.left.id in (a, b):
+                            mem.setdefault(v.left.id, set()).add(u(v.comparators[0]))
+                    if a in mem and b in mem and mem[a] != mem[b]:
+                        n += 1
+                        # mirrored test somewhere in the same statement scope
+                        s1, s2 = sorted(mem[a])[0], sorted(mem[b])[0]
+                        mirrored = any(isinstance(t2, ast.BoolOp) and isinstance(t2.op, ast.And) and
+                                       {'{} in {}'.format(b, s1), '{} in {}'.format(a, s2)} <= {u(v2) for v2 in t2.values}
+                                       for s_ in scope for t2 in ast.walk(s_))
+                        ck.ob(rule, module.loc(test), mirrored, '{}: `{}` tests the ends of an undirected edge from `{}` in one orientation{}'.format(
+                            qual, u(test)[:80], txt[:40], ' and in the mirrored one' if mirrored else ' only -- an edge stored the other way round is skipped'),
+                            key='{}|{}|{}'.format(rule, qual, u(test)[:50]))
+    ck.extra['edge_orientation_sites'] = n
+    return n
